@@ -111,7 +111,8 @@ Section Single.
     (Core (prev ++ [s]) r' acc' -> Later r acc r' acc' -> Built r' acc' s) ->
     (forall n0 names sst, In (n0, (names, sst)) (cplx_entry prev s) ->
        Later r acc r' acc' -> exists conc, BuiltCplx cc r' acc' n0 names sst conc) ->
-    read_one ct G None (TList line) acc r = (r', Ok acc') /\ SInv (prev ++ [s]) r' acc' /\ Later r acc r' acc'.
+    (forall accR, read_one ct G None (TList line) accR r = (r', Ok (apply_delta (FKind k nm i) accR))) /\
+    SInv (prev ++ [s]) r' acc' /\ Later r acc r' acc'.
   Proof.
     intros [C B] Hdec Hk st i Hex HF Hch HO Hdecl Hnm Hdd Hdr Hattr r' acc' HB Hent.
     assert (HkR : k <> KindR) by (destruct Hk as [<-|[<-|[<-|[]]]]; discriminate).
@@ -128,14 +129,16 @@ Section Single.
       destruct Hin as [Hin|Hin]; [left; exact Hin | right; apply Hent; exact Hin]. }
     fold st in C', L'. fold i in C', L'. fold r' in C', L'. fold acc' in C', L'.
     set (r1 := mkR (hold (mk_new (holds st temps) (cls_of k) nm key extra ch d) i) (r_seq r) cn' (r_rate r)) in Hex.
-    assert (Ef : file_obj ct G (RObj i) acc r1 = (r1, Ok (acc', [i]))).
-    { apply (file_obj_kind k i nm acc r1 key extra ch d (heap st) Hk); reflexivity. }
-    pose proof (read_one_ok ct cd cs cc cm cr line s acc r r1 (RObj i) r1 (acc', [i]) Hdec Hex Ef) as E3.
-    cbn [fst snd] in E3. fold st in E3.
     assert (Ecut : cut_roots (r_st r1) (length (roots st)) [i] = r_st r').
     { unfold r1, r', cut_roots, holds, hold. cbn [r_st]. rewrite mk_new_with_roots.
       unfold with_roots. cbn [heap classes roots map]. rewrite roots_mk_new, <- app_assoc, firstn_roots. reflexivity. }
-    rewrite Ecut, (collect_id ct _ (si_sok _ _ _ _ _ _ _ _ _ C')) in E3.
+    assert (E3 : forall accR, read_one ct G None (TList line) accR r = (r', Ok (apply_delta (FKind k nm i) accR))).
+    { intros accR.
+      assert (Ef : file_obj ct G (RObj i) accR r1 = (r1, Ok (apply_delta (FKind k nm i) accR, [i]))).
+      { apply (file_obj_kind k i nm accR r1 key extra ch d (heap st) Hk); reflexivity. }
+      pose proof (read_one_ok ct cd cs cc cm cr line s accR r r1 (RObj i) r1 _ Hdec Hex Ef) as E3.
+      cbn [fst snd] in E3. fold st in E3.
+      rewrite Ecut, (collect_id ct _ (si_sok _ _ _ _ _ _ _ _ _ C')) in E3. exact E3. }
     split; [exact E3|]. split; [|exact L']. split; [exact C'|].
     intros s0 Hs0. apply in_app_or in Hs0. destruct Hs0 as [Hs0|[<-|[]]].
     - eapply built_later; [exact L' | apply B; exact Hs0].
